@@ -1,0 +1,225 @@
+//go:build verif
+
+package ast
+
+import (
+	"encoding/hex"
+	"fmt"
+	"strings"
+)
+
+// Verification hooks (build tag `verif`): complete dumps of tokens and syntax
+// trees for the correspondence check in /verif. Not compiled without the tag.
+
+type VerifToken struct {
+	Type   int
+	Name   string
+	Lexeme string
+	Start  int
+	End    int
+}
+
+func VerifTokens(src string) ([]VerifToken, error) {
+	lexer := initLexer(strings.NewReader(src))
+	tokens, err := lexer.getTokens()
+	if err != nil {
+		return nil, err
+	}
+	out := []VerifToken{}
+	for _, t := range tokens {
+		out = append(out, VerifToken{int(t.TokenType), t.TokenType.PP(), t.Lexeme, t.Offset.Start, t.Offset.End})
+	}
+	return out, nil
+}
+
+func vhex(s string) string { return "x" + hex.EncodeToString([]byte(s)) }
+
+func vbool(b bool) string {
+	if b {
+		return "T"
+	}
+	return "F"
+}
+
+func vname(s string) string {
+	if s == "" {
+		return "_"
+	}
+	return "n" + hex.EncodeToString([]byte(s))
+}
+
+func (a *Ast) VerifDump() string {
+	parts := []string{}
+	for _, c := range a.commands {
+		parts = append(parts, VerifDumpCommand(c))
+	}
+	return "( prog " + strings.Join(parts, " ") + " )"
+}
+
+func vexprs(es []AstExpression) string {
+	parts := []string{}
+	for _, e := range es {
+		parts = append(parts, VerifDumpExpr(e))
+	}
+	return strings.Join(parts, " ")
+}
+
+func vstmts(ss []AstProcessStatement) string {
+	parts := []string{}
+	for _, s := range ss {
+		parts = append(parts, VerifDumpStmt(s))
+	}
+	return strings.Join(parts, " ")
+}
+
+func VerifDumpCommand(c AstCommand) string {
+	switch v := c.(type) {
+	case *AstFind:
+		return fmt.Sprintf("( find %s %d %d %d ( body %s ) )", vbool(v.All), v.Skip, v.Take, v.Last, vexprs(v.Body))
+	case *AstReplace:
+		atoms := []string{}
+		for _, a := range v.Result {
+			atoms = append(atoms, VerifDumpAtom(a))
+		}
+		return fmt.Sprintf("( replace %s %d %d %d ( body %s ) ( result %s ) )", vbool(v.All), v.Skip, v.Take, v.Last, vexprs(v.Body), strings.Join(atoms, " "))
+	case *AstSet:
+		return fmt.Sprintf("( set %s %s )", vname(v.Id), VerifDumpSetBody(v.Body))
+	case nil:
+		return "( nilcmd )"
+	}
+	return fmt.Sprintf("( unknowncmd %T )", c)
+}
+
+func VerifDumpSetBody(b AstSetBody) string {
+	switch v := b.(type) {
+	case *AstSetPattern:
+		return fmt.Sprintf("( pattern ( body %s ) ( pred %s ) )", vexprs(v.Pattern), vstmts(v.Body))
+	case *AstSetTransform:
+		return fmt.Sprintf("( transform %s )", vstmts(v.Statements))
+	case *AstSetMatches:
+		return fmt.Sprintf("( matches %s )", VerifDumpCommand(v.Command))
+	case nil:
+		return "( nilbody )"
+	}
+	return fmt.Sprintf("( unknownbody %T )", b)
+}
+
+func VerifDumpAtom(a AstAtom) string {
+	switch v := a.(type) {
+	case *AstString:
+		return fmt.Sprintf("( str %s %s %s )", vbool(v.Not), vbool(v.Caseless), vhex(v.Value))
+	case *AstVariable:
+		return fmt.Sprintf("( var %s )", vname(v.Name))
+	case nil:
+		return "( nilatom )"
+	}
+	return fmt.Sprintf("( unknownatom %T )", a)
+}
+
+func VerifDumpExpr(e AstExpression) string {
+	switch v := e.(type) {
+	case *AstLoop:
+		return fmt.Sprintf("( loop %d %d %s %s %s )", v.Min, v.Max, vbool(v.Fewest), vname(v.Name), VerifDumpExpr(v.Body))
+	case *AstBranch:
+		return fmt.Sprintf("( branch %s %s )", VerifDumpLiteral(v.Left), VerifDumpExpr(v.Right))
+	case *AstDec:
+		return fmt.Sprintf("( dec %s %s )", vname(v.Name), VerifDumpLiteral(v.Body))
+	case *AstSub:
+		return fmt.Sprintf("( subdec %s %s )", vname(v.Name), vexprs(v.Body))
+	case *AstList:
+		parts := []string{}
+		for _, l := range v.Contents {
+			parts = append(parts, VerifDumpListable(l))
+		}
+		return fmt.Sprintf("( in %s %d %s )", vbool(v.Not), v.GetMaxSize(), strings.Join(parts, " "))
+	case *AstPrimary:
+		return fmt.Sprintf("( primary %s )", VerifDumpLiteral(v.Literal))
+	case nil:
+		return "( nilexpr )"
+	}
+	return fmt.Sprintf("( unknownexpr %T )", e)
+}
+
+func VerifDumpLiteral(l AstLiteral) string {
+	switch v := l.(type) {
+	case *AstString:
+		return fmt.Sprintf("( str %s %s %s )", vbool(v.Not), vbool(v.Caseless), vhex(v.Value))
+	case *AstSubExpr:
+		return fmt.Sprintf("( subexpr %s )", vexprs(v.Body))
+	case *AstVariable:
+		return fmt.Sprintf("( var %s )", vname(v.Name))
+	case *AstCharacterClass:
+		return fmt.Sprintf("( class %s %s )", vbool(v.Not), v.ClassType.String())
+	case nil:
+		return "( nillit )"
+	}
+	return fmt.Sprintf("( unknownlit %T )", l)
+}
+
+func VerifDumpListable(l AstListable) string {
+	switch v := l.(type) {
+	case *AstString:
+		return fmt.Sprintf("( str %s %s %s )", vbool(v.Not), vbool(v.Caseless), vhex(v.Value))
+	case *AstCharacterClass:
+		return fmt.Sprintf("( class %s %s )", vbool(v.Not), v.ClassType.String())
+	case *AstRange:
+		return fmt.Sprintf("( range %s %s )", vhex(v.From.Value), vhex(v.To.Value))
+	case nil:
+		return "( nillistable )"
+	}
+	return fmt.Sprintf("( unknownlistable %T )", l)
+}
+
+func VerifDumpStmt(s AstProcessStatement) string {
+	switch v := s.(type) {
+	case *AstProcessSet:
+		return fmt.Sprintf("( pset %s %s )", vname(v.Name), VerifDumpPExpr(v.Expr))
+	case *AstProcessReturn:
+		return fmt.Sprintf("( return %s )", VerifDumpPExpr(v.Expr))
+	case *AstProcessIf:
+		return fmt.Sprintf("( if %s ( then %s ) ( else %s ) )", VerifDumpPExpr(v.Condition), vstmts(v.TrueBody), vstmts(v.FalseBody))
+	case *AstProcessDebug:
+		return fmt.Sprintf("( debug %s )", VerifDumpPExpr(v.Expr))
+	case *AstProcessLoop:
+		return fmt.Sprintf("( ploop %s )", vstmts(v.Body))
+	case AstProcessContinue, *AstProcessContinue:
+		return "( continue )"
+	case AstProcessBreak, *AstProcessBreak:
+		return "( break )"
+	case nil:
+		return "( nilstmt )"
+	}
+	return fmt.Sprintf("( unknownstmt %T )", s)
+}
+
+func VerifDumpPExpr(e AstProcessExpression) string {
+	switch v := e.(type) {
+	case AstProcessUnaryExpression:
+		return fmt.Sprintf("( un %s %s )", v.Op.PP(), VerifDumpPExpr(v.Expr))
+	case *AstProcessUnaryExpression:
+		return fmt.Sprintf("( un %s %s )", v.Op.PP(), VerifDumpPExpr(v.Expr))
+	case AstProcessBinaryExpression:
+		return fmt.Sprintf("( bin %s %s %s )", v.Op.PP(), VerifDumpPExpr(v.Lhs), VerifDumpPExpr(v.Rhs))
+	case *AstProcessBinaryExpression:
+		return fmt.Sprintf("( bin %s %s %s )", v.Op.PP(), VerifDumpPExpr(v.Lhs), VerifDumpPExpr(v.Rhs))
+	case AstProcessString:
+		return fmt.Sprintf("( pstr %s )", vhex(v.Value))
+	case *AstProcessString:
+		return fmt.Sprintf("( pstr %s )", vhex(v.Value))
+	case AstProcessNumber:
+		return fmt.Sprintf("( pnum %d )", v.Value)
+	case *AstProcessNumber:
+		return fmt.Sprintf("( pnum %d )", v.Value)
+	case AstProcessBoolean:
+		return fmt.Sprintf("( pbool %s )", vbool(v.Value))
+	case *AstProcessBoolean:
+		return fmt.Sprintf("( pbool %s )", vbool(v.Value))
+	case AstProcessVariable:
+		return fmt.Sprintf("( pvar %s )", vname(v.Name))
+	case *AstProcessVariable:
+		return fmt.Sprintf("( pvar %s )", vname(v.Name))
+	case nil:
+		return "( nilpexpr )"
+	}
+	return fmt.Sprintf("( unknownpexpr %T )", e)
+}
